@@ -16,6 +16,10 @@ pub trait LifeObj {
     fn reset_with_key(&mut self, _k: &[u8]) {
         unreachable!()
     }
+    /// the object's inherent / Digest-side reset, documented as "the state after calling `new`" (legacy BLAKE2 only)
+    fn reset_plain(&mut self) {
+        unreachable!()
+    }
     fn fork(&self) -> Option<Box<dyn LifeObj>>;
     fn out_len(&self) -> usize;
 }
@@ -113,6 +117,9 @@ macro_rules! blake_mac {
             }
             fn reset_with_key(&mut self, k: &[u8]) {
                 self.0.reset_with_key(k)
+            }
+            fn reset_plain(&mut self) {
+                cryptoxide::digest::Digest::reset(&mut self.0)
             }
             fn fork(&self) -> Option<Box<dyn LifeObj>> {
                 Some(Box::new($w(self.0.clone())))
